@@ -67,7 +67,22 @@ class Jet:
     def getAttr(self): ...  # noqa
 
 
+def cb_muon_class(s, a):
+    LOG.append(("class", "Muon", a.func.attr))
+    return s.MetaData({"tag": "muon_class"}), a
+
+
+class Particle:
+    def p(self) -> float: ...  # noqa
+
+
+@func_adl_callback(cb_muon_class)
+class Muon(Particle):
+    def iso(self) -> float: ...  # noqa
+
+
 class Evt:
+    def lead_mu(self) -> Muon: ...  # noqa
     def Jets(self) -> Iterable[Jet]: ...  # noqa
     def lead(self) -> Jet: ...  # noqa
     def met(self) -> float: ...  # noqa
@@ -85,8 +100,8 @@ class TDS(EventDataset[Evt]):
         return a
 
 
-NSITES = 7
-TAGS = {0: ["jet_pt"], 1: [], 2: ["trk_class", "trk_pt"], 3: ["trk_class"], 4: ["calib"], 5: ["param"], 6: ["jet_mass"]}
+NSITES = 8
+TAGS = {0: ["jet_pt"], 1: [], 2: ["trk_class", "trk_pt"], 3: ["trk_class"], 4: ["calib"], 5: ["param"], 6: ["jet_mass"], 7: ["muon_class"]}
 
 
 def P(s):
@@ -109,6 +124,8 @@ def site(i, jv, k, s):
         n = P("%s.getAttr[0]('attr_a')" % jv)
         n.func.slice = ast.Tuple([ast.Constant(k), ast.Constant(s)], L)
         return n
+    if i == 7:   # method inherited from an undecorated base, called on an instance of the decorated subclass (independent of jv)
+        return P("e.lead_mu().p()")
     return P("%s.mass()" % jv)
 
 
@@ -128,19 +145,21 @@ def expected_log(mask, k, s):
                 exp.append(("param", "getAttr", (k, s)))
             elif i == 6:
                 exp.append(("method", "Jet", "mass"))
+            elif i == 7:
+                exp.append(("class", "Muon", "p"))
     return exp
 
 
 def c09(code: int, m2: int, k: int) -> str:
     """
     pre: LO <= code < HI and 0 <= code < 48
-    pre: 0 <= m2 < 8
+    pre: 0 <= m2 < 16
     post: (_ == '') != TWIN
     """
     s = "cpp_type"
     code = pick(code, max(LO, 0), min(HI, 48))
     place, mlow = code // 16, code % 16
-    mask = mlow | (pick(m2, 0, 8) << 4)
+    mask = mlow | (pick(m2, 0, 16) << 4)
     present = [i for i in range(NSITES) if (mask >> i) & 1]
     # placement: 0 = sites inside e.Jets().Select(lambda j: ...); 1 = sites on e.lead() directly in the stream lambda; 2 = Where over jets inside SelectMany
     jv = "j" if place != 1 else "e.lead()"
